@@ -1215,7 +1215,7 @@ def run_chunk(chunk_id, payload):
 def main():
     chk = R.Check(PROP)
     binary = chk.build("asan")
-    total = 1500 if chk.tier == "quick" else 60000
+    total = 6000 if chk.tier == "quick" else 60000
     total = max(16, int(total * chk.args.scale))
     nchunks = 16 if chk.tier == "quick" else 96
     per = (total + nchunks - 1) // nchunks
